@@ -105,6 +105,24 @@ func checkC05(w *World, r *Report) {
 		}
 	})
 
+	r.Rule("R05.11", "only the empty string gets the bare 'empty expression' error: each internal machine constructor returns it under exactly `len(expr) == 0`; every other input — blanks only, included — goes on to CreateProgram, whose error quotes the expression and marks a position (R05.6)", 3)
+	r.guard("R05.11", func() { c04EmptyRule(w, r, "R05.11") })
+
+	r.Rule("R05.12", "the reviewed slice in startsWithXML (ToLower(name)[0:3] after a length test on name) presupposes ASCII names, for which lower-casing keeps the length: the leafref lexer's name classes accept ASCII only", 2)
+	r.guard("R05.12", func() {
+		pe := NewPredEval(w, intDom{})
+		for _, m := range []string{"IsNameStartChar", "IsNameChar"} {
+			set := pe.TrueSet(w.Method("xpath/grammars/leafref", "leafrefLex", m)).(ISet)
+			ascii := true
+			for _, iv := range set {
+				if iv.lo < 0 || iv.hi > 127 {
+					ascii = false
+				}
+			}
+			r.Check(ascii, "R05.12", "leafrefLex."+m+" is ASCII-only", token.NoPos, set.String(), "the leafref lexer accepts non-ASCII name characters ("+set.String()+"): strings.ToLower can shorten such a name (U+212A KELVIN SIGN → k), and startsWithXML then slices [0:3] of a shorter string — NewLeafrefMachine panics")
+		}
+	})
+
 	r.Rule("R05.8", "no error is forgotten on the XPath side: in the xpath packages every error result bound to a variable is examined", 1)
 	r.guard("R05.8", func() {
 		errRule(w, r, "R05.8", []string{"xpath", "xpath/xutils", "xpath/grammars/expr", "xpath/grammars/leafref", "xpath/grammars/path_eval"}, nil)
